@@ -1,3 +1,390 @@
-"""Loop treatment: invariants from the sidecar (keyed by function + loop ordinal + iteration text)."""
+"""Loop treatment of the npvc executor (DESIGN.md 1.2).
+
+Every loop is cut by an invariant:
+  * the INFERRED shape/ownership invariant -- "every variable the loop writes keeps its python type, and every array
+    it writes keeps its rank, dims, dtype kind and ownership" -- is checked for preservation on one symbolic
+    iteration started from a havoc of the loop's write set; a loop where it fails makes the function undecided;
+  * a VALUE invariant from the sidecar (INVARIANTS, keyed by function + loop ordinal + the text of the iteration
+    expression, so drift is detected instead of silently mis-binding) is assumed at the head, and proved at entry
+    and at the end of the symbolic iteration (side obligations `loop-inv-init` / `loop-inv-preserved`).
+After the loop the state is the havoc state (plus not-guard for `while`), or the state of a `break` path.
+Termination is NOT proved.  Loops whose variable is read after the loop are assumed to run at least once (noted).
+"""
+import ast
+import z3
+
 import contracts as C
-C.LOOP_HOOK = None
+from npvc.values import *
+from npvc.exec import Unsupported, feasible
+from npvc.libspec_np import VRange, VEnumerate, VZip, VReversed
+from npvc import theory as TH
+
+INVARIANTS = {}       # (target, ordinal) -> dict(over=<text of iteration expr / while test>, inv=fn(view) -> z3 Bool, ghosts=...)
+
+
+def invariant(target, ordinal, over):
+  def deco(fn):
+    INVARIANTS[(target, ordinal)] = dict(over=over, inv=fn)
+    return fn
+  return deco
+
+
+def write_set(body):
+  names, attrs = set(), set()
+
+  def tgt(t):
+    if isinstance(t, ast.Name):
+      names.add(t.id)
+    elif isinstance(t, (ast.Tuple, ast.List)):
+      for e in t.elts:
+        tgt(e)
+    elif isinstance(t, ast.Attribute):
+      if isinstance(t.value, ast.Name) and t.value.id == 'self':
+        attrs.add(t.attr)
+    elif isinstance(t, ast.Subscript):
+      b = t.value
+      while isinstance(b, (ast.Subscript, ast.Attribute)) and not (isinstance(b, ast.Attribute) and isinstance(b.value, ast.Name) and b.value.id == 'self'):
+        b = b.value
+      if isinstance(b, ast.Name):
+        names.add(b.id)
+      elif isinstance(b, ast.Attribute):
+        attrs.add(b.attr)
+    elif isinstance(t, ast.Starred):
+      tgt(t.value)
+  for st in body:
+    for n in ast.walk(st):
+      if isinstance(n, ast.Assign):
+        for t in n.targets:
+          tgt(t)
+      elif isinstance(n, (ast.AugAssign, ast.AnnAssign)):
+        tgt(n.target)
+      elif isinstance(n, (ast.For,)):
+        tgt(n.target)
+      elif isinstance(n, ast.ExceptHandler) and n.name:
+        names.add(n.name)
+  return names, attrs
+
+
+def havoc_value(ex, p, v, hint):
+  """fresh value of the same python type / array shape"""
+  if isinstance(v, VInt):
+    return VInt(fresh(hint, z3.IntSort()))
+  if isinstance(v, VReal):
+    return VReal(fresh(hint, z3.RealSort()))
+  if isinstance(v, VBool):
+    return VBool(fresh(hint, z3.BoolSort()))
+  if isinstance(v, VArr):
+    st = p.store[v.loc]
+    p.store[v.loc] = st.replace(term=fresh(hint, T), version=st.version + 1)
+    return v
+  if isinstance(v, VInf):
+    return VReal(fresh(hint, z3.RealSort()))       # a variable initialised to inf that the loop overwrites with reals
+  if isinstance(v, (VNone, VStr, VOpaque, VObj, VFunc, VExt, VClass)):
+    return v
+  if isinstance(v, VTuple):
+    return VTuple([havoc_value(ex, p, x, hint) for x in v.items])
+  if isinstance(v, VList):
+    return VList([havoc_value(ex, p, x, hint) for x in v.items])
+  if isinstance(v, VRef):
+    return VRef(fresh(hint, Ref), v.types)
+  raise Unsupported('cannot havoc %r' % (v,))
+
+
+def same_type(ex, p, a, b, name, st):
+  """type/shape stability of a loop-written variable; returns list of z3 conditions that must hold"""
+  if isinstance(a, VInf) and isinstance(b, (VReal, VInf)) or isinstance(b, VInf) and isinstance(a, VReal):
+    return []
+  if isinstance(a, VNone) and not isinstance(b, VNone) or isinstance(b, VNone) and not isinstance(a, VNone):
+    raise Unsupported('loop line %d: variable %s is None on one side of the back edge and %s on the other (needs an entry-case split)'
+                      % (st.lineno, name, type(b).__name__))
+  if type(a) != type(b):
+    if isinstance(a, (VInt, VReal)) and isinstance(b, (VInt, VReal)):
+      raise Unsupported('loop line %d: variable %s changes between int and float' % (st.lineno, name))
+    raise Unsupported('loop line %d: variable %s changes python type (%s -> %s)' % (st.lineno, name, type(a).__name__, type(b).__name__))
+  if isinstance(a, VArr):
+    sa, sb = p.store[a.loc], p.store[b.loc]
+    if sa.shape.concrete != sb.shape.concrete or (sa.shape.concrete and sa.shape.rank != sb.shape.rank):
+      raise Unsupported('loop line %d: array %s changes rank' % (st.lineno, name))
+    if sa.kind != sb.kind and not ({sa.kind, sb.kind} <= {'i', 'f'} and sb.kind == 'f' and sa.kind == 'f'):
+      if {sa.kind, sb.kind} != {'i', 'f'}:
+        raise Unsupported('loop line %d: array %s changes dtype kind %s -> %s' % (st.lineno, name, sa.kind, sb.kind))
+    conds = []
+    if sa.shape.concrete:
+      conds = [x == y for x, y in zip(sa.shape.dims, sb.shape.dims)]
+    if bool(sa.owner) != bool(sb.owner):
+      raise Unsupported('loop line %d: array %s changes ownership across the back edge' % (st.lineno, name))
+    return conds
+  if isinstance(a, (VTuple, VList)):
+    if len(a.items) != len(b.items):
+      raise Unsupported('loop line %d: sequence %s changes length' % (st.lineno, name))
+    out = []
+    for x, y in zip(a.items, b.items):
+      out += same_type(ex, p, x, y, name, st)
+    return out
+  return []
+
+
+def element_of(ex, p, it, node, module):
+  """generic element of an iterable -> (value, number of elements, index term)"""
+  if isinstance(it, VRange):
+    args = it.args
+    lo = args[0].t if len(args) >= 2 else z3.IntVal(0)
+    hi = args[1].t if len(args) >= 2 else args[0].t
+    if len(args) == 3:
+      raise Unsupported('range with step')
+    i = fresh('it', z3.IntSort())
+    p.assume(i >= lo)
+    p.assume(i < hi)
+    return VInt(i), hi - lo, i - lo
+  if isinstance(it, VReversed):
+    return element_of(ex, p, it.v, node, module)
+  if isinstance(it, VEnumerate):
+    v, n, i = element_of(ex, p, it.v, node, module)
+    return VTuple([VInt(i), v]), n, i
+  if isinstance(it, VArr):
+    i = fresh('it', z3.IntSort())
+    p.assume(i >= 0)
+    v, n = arr_elem(ex, p, it, node, i)
+    return v, n, i
+  if isinstance(it, VZip):
+    i = fresh('it', z3.IntSort())
+    p.assume(i >= 0)
+    items = []
+    n = None
+    for v in it.vs:
+      if not isinstance(v, VArr):
+        raise Unsupported('zip over %r' % (v,))
+      e, nn = arr_elem(ex, p, v, node, i)
+      items.append(e)
+      n = nn if n is None else z3.If(nn < n, nn, n)
+    return VTuple(items), n, i
+  raise Unsupported('iteration over %r (line %d)' % (it, node.lineno))
+
+
+def arr_elem(ex, p, a, node, i):
+  st = p.store[a.loc]
+  if not st.shape.concrete or st.shape.rank < 1:
+    raise Unsupported('iteration over 0-d / symbolic-rank array')
+  n = st.shape.dims[0]
+  p.assume(i < n)
+  from npvc.libspec import Cx
+  cx = Cx(ex.lib, ex, p, node)
+  (q, v), = ex.lib.np.index(cx, a, st, [VInt(i)])
+  return v, n
+
+
+def loop_hook(ex, st, p, module):
+  target = ex.callstack[-1] if ex.callstack else '?'
+  fnode = ex.prog.func(target) if ':' in target and '#' not in target else None
+  ordinal = None
+  if fnode is not None:
+    loops = [n for n in ast.walk(fnode) if isinstance(n, (ast.For, ast.While))]
+    loops.sort(key=lambda n: (n.lineno, n.col_offset))
+    ordinal = loops.index(st) if st in loops else None
+  is_for = isinstance(st, ast.For)
+  over_text = ast.unparse(st.iter if is_for else st.test)
+  inv = INVARIANTS.get((target, ordinal))
+  if inv is not None and inv['over'] != over_text:
+    raise Unsupported('loop %d of %s now iterates over `%s`, the sidecar invariant was written for `%s`' % (ordinal, target, over_text, inv['over']))
+
+  out_paths = []
+  iters = ex.ev(st.iter, p, module) if is_for else [(p, None)]
+  for p0, it in iters:
+    # small concrete python sequences: unroll
+    if is_for and isinstance(it, (VList, VTuple)) and len(it.items) <= 4:
+      paths = [p0]
+      broke = []
+      for item in it.items:
+        nxt = []
+        for q in paths:
+          saved, ex.collect = ex.collect, []
+          mine = ex.collect
+          try:
+            live = []
+            for q2 in ex.assign_to(st.target, item, q, module):
+              live += ex.block(st.body, [q2], module)
+          finally:
+            ex.collect = saved
+          for r in mine:
+            if r.outcome[0] == 'continue':
+              r.outcome = None
+              live.append(r)
+            elif r.outcome[0] == 'break':
+              r.outcome = None
+              broke.append(r)
+            else:
+              ex.collect.append(r)
+          nxt += live
+        paths = nxt
+      if st.orelse:
+        paths = ex.block(st.orelse, paths, module)
+      out_paths += paths + broke
+      continue
+    out_paths += one_loop(ex, st, p0, it, module, is_for, inv, target, ordinal)
+  return out_paths
+
+
+def view(ex, p):
+  from npvc.contracts import unwrap
+
+  class V_:
+    def __getattr__(self, k):
+      if k in p.env:
+        return unwrap(p.env[k], p)
+      raise AttributeError(k)
+
+    def has(self, k):
+      return k in p.env
+  return V_()
+
+
+def one_loop(ex, st, p, it, module, is_for, inv, target, ordinal):
+  names, attrs = write_set(st.body + (st.orelse if False else []))
+  selfv = p.env.get('self')
+  tag = '%s/loop%s@L%d' % (target, ordinal, st.lineno)
+  # ---- invariant at entry
+  if inv is not None:
+    g = inv['inv'](view(ex, p), None)
+    p.side.append(('loop-inv-init', tag, list(p.pc), g, 'value invariant holds on entry'))
+  extra_locs = set()
+  for attempt in range(3):
+    head = p.fork()
+    head_before = {k: head.env.get(k) for k in names}
+    # havoc the write set
+    for k in sorted(names):
+      if k in head.env:
+        head.env[k] = havoc_value(ex, head, head.env[k], k)
+    if selfv is not None and isinstance(selfv, VObj):
+      for a in sorted(attrs):
+        if a in head.heap[selfv.oid]:
+          head.heap[selfv.oid][a] = havoc_value(ex, head, head.heap[selfv.oid][a], 'self.' + a)
+    for loc in sorted(extra_locs):
+      if loc in head.store:
+        s_ = head.store[loc]
+        head.store[loc] = s_.replace(term=fresh('hv', T), version=s_.version + 1)
+    if inv is not None:
+      head.assume(inv['inv'](view(ex, head), None))
+    versions = {loc: s_.version for loc, s_ in head.store.items()}
+    head_env = dict(head.env)
+    head_attrs = dict(head.heap[selfv.oid]) if isinstance(selfv, VObj) else {}
+    # ---- one symbolic iteration
+    body_p = head.fork()
+    n_iter = None
+    if is_for:
+      elem, n_iter, idx_term = element_of(ex, body_p, it, st, module)
+      starts = ex.assign_to(st.target, elem, body_p, module)
+    else:
+      starts = []
+      for q, c in ex.ev(st.test, body_p, module):
+        t = ex.truth(c, q)
+        q.assume(t)
+        if feasible(q.pc):
+          starts.append(q)
+    saved, ex.collect = ex.collect, []
+    mine = ex.collect
+    try:
+      ends = ex.block(st.body, starts, module) if starts else []
+    finally:
+      ex.collect = saved
+    breaks = []
+    for r in mine:
+      if r.outcome[0] == 'continue':
+        r.outcome = None
+        ends.append(r)
+      elif r.outcome[0] == 'break':
+        r.outcome = None
+        breaks.append(r)
+      else:
+        ex.collect.append(r)
+    # arrays mutated in place that the syntactic write set missed -> redo with a larger havoc set
+    more = set()
+    for q in ends + breaks:
+      for loc, v0 in versions.items():
+        if loc in q.store and q.store[loc].version != v0:
+          named = any(isinstance(head_env.get(k), VArr) and head_env[k].loc == loc for k in names) or \
+                  any(isinstance(head_attrs.get(a), VArr) and head_attrs[a].loc == loc for a in attrs)
+          if not named and loc not in extra_locs:
+            more.add(loc)
+    if more:
+      extra_locs |= more
+      continue
+    break
+  else:
+    raise Unsupported('loop write set did not stabilise (line %d)' % st.lineno)
+  # ---- preservation
+  for q in ends:
+    conds = []
+    for k in names:
+      if k in head_env and k in q.env:
+        conds += same_type(ex, q, head_env[k], q.env[k], k, st)
+    if isinstance(selfv, VObj):
+      for a in attrs:
+        if a in head_attrs and a in q.heap[selfv.oid]:
+          conds += same_type(ex, q, head_attrs[a], q.heap[selfv.oid][a], 'self.' + a, st)
+    if conds:
+      q.side.append(('loop-shape', tag, list(q.pc), z3.And(*conds), 'arrays written by the loop keep their shape'))
+    if inv is not None:
+      q.side.append(('loop-inv-preserved', tag, list(q.pc), inv['inv'](view(ex, q), view(ex, head)), 'value invariant re-established'))
+  # side obligations discovered inside the body must survive even though the iteration paths are dropped:
+  # they are attached to the exit path
+  carried = []
+  for q in ends:
+    carried += q.side[len(head.side):]
+  carried_notes = []
+  for q in ends + breaks:
+    carried_notes += [n for n in q.notes if n not in head.notes]
+  # ---- after the loop
+  exit_p = head
+  exit_p.side += carried
+  for n in carried_notes:
+    if n not in exit_p.notes:
+      exit_p.notes.append(n)
+  for q in ends:
+    for e in q.events[len(head.events):]:
+      if e not in exit_p.events:
+        exit_p.events.append(e + ('in-loop',) if isinstance(e, tuple) else e)
+  # variables first bound inside the body: bound after the loop (assumption: the loop ran at least once when they are read)
+  new_names = set()
+  for q in ends + breaks:
+    for k in q.env:
+      if k not in head_env and not k.startswith('__'):
+        new_names.add(k)
+  if is_for:
+    for t in ast.walk(st.target):
+      if isinstance(t, ast.Name):
+        new_names.add(t.id)
+  sample = (ends + breaks)[0] if (ends + breaks) else None
+  for k in sorted(new_names):
+    if k in exit_p.env and k not in names and not is_for:
+      continue
+    if sample is not None and k in sample.env:
+      v = sample.env[k]
+      if isinstance(v, VArr):
+        # copy the array record into the exit path under a fresh location
+        s_ = sample.store[v.loc]
+        exit_p.env[k] = exit_p.new_loc(s_.replace(term=fresh(k, T)))
+      else:
+        try:
+          exit_p.env[k] = havoc_value(ex, exit_p, v, k)
+        except Unsupported:
+          exit_p.env[k] = VOpaque('loop-local ' + k)
+      note = 'loop at line %d assumed to execute at least once where `%s` is read afterwards' % (st.lineno, k)
+      if note not in exit_p.notes:
+        exit_p.notes.append(note)
+  out = []
+  if is_for:
+    exits = [exit_p]
+  else:
+    exits = []
+    for q, c in ex.ev(st.test, exit_p, module):
+      q.assume(z3.Not(ex.truth(c, q)))
+      if feasible(q.pc):
+        exits.append(q)
+  if st.orelse:
+    exits = ex.block(st.orelse, exits, module)
+  out += exits
+  out += breaks
+  return out
+
+
+C.LOOP_HOOK = loop_hook
